@@ -1943,6 +1943,10 @@ void vm_get_slice_range(
     int range2_from, int range2_to,
     int * res_from,  int * res_to, int * oob)
 {
+    /* the sums are formed in 64 bits: range1_from + range2_from can exceed int */
+    long long from = 0;
+    long long to = 0;
+
     if (range2_from < 0 || range2_to < 0)
     {
         *oob = 1;
@@ -1951,12 +1955,12 @@ void vm_get_slice_range(
 
     if (range1_from < range1_to)
     {
-        *res_from = range1_from + range2_from;
-        *res_to = range1_from + range2_to;
+        from = (long long)range1_from + range2_from;
+        to = (long long)range1_from + range2_to;
 
         if (range2_from < range2_to)
         {
-            if (*res_to > range1_to)
+            if (to > range1_to)
             {
                 *oob = 1;
                 return;
@@ -1964,7 +1968,7 @@ void vm_get_slice_range(
         }
         else
         {
-            if (*res_from > range1_to)
+            if (from > range1_to)
             {
                 *oob = 1;
                 return;
@@ -1973,12 +1977,12 @@ void vm_get_slice_range(
     }
     else
     {
-        *res_from = range1_from - range2_from;
-        *res_to = range1_from - range2_to;
+        from = (long long)range1_from - range2_from;
+        to = (long long)range1_from - range2_to;
 
         if (range2_from < range2_to)
         {
-            if (*res_to < range1_to)
+            if (to < range1_to)
             {
                 *oob = 1;
                 return;
@@ -1986,13 +1990,16 @@ void vm_get_slice_range(
         }
         else
         {
-            if (*res_from < range1_to)
+            if (from < range1_to)
             {
                 *oob = 1;
                 return;
             }
         }
     }
+
+    *res_from = (int)from;
+    *res_to = (int)to;
 }
 
 void vm_execute_slice_array(vm * machine, bytecode * code)
